@@ -282,6 +282,7 @@ def build_extracted(area, timeout=900):
         if rc != 0:
             return None, "extraction failed:\n" + out[-3000:]
         shutil.copy(drv, os.path.join(d, "driver.ml"))
+        shutil.copy(os.path.join(VERIF, "ocaml", "bits.ml"), os.path.join(d, "bits.ml"))
         mls = sorted(glob.glob(os.path.join(d, "*_model.ml")))
         if not mls:
             return None, "extraction produced no *_model.ml\n" + out[-2000:]
@@ -290,7 +291,7 @@ def build_extracted(area, timeout=900):
             if os.path.exists(m + "i"):
                 files.append(os.path.basename(m) + "i")
             files.append(os.path.basename(m))
-        rc, out2 = sh("ocamlfind ocamlopt -O2 -w -a -package str -linkpkg %s driver.ml -o vmodel" % " ".join(files), cwd=d, timeout=600)
+        rc, out2 = sh("ocamlfind ocamlopt -O2 -w -a -package str -linkpkg bits.ml %s driver.ml -o vmodel" % " ".join(files), cwd=d, timeout=600)
         if rc != 0 or not os.path.exists(exe):
             return None, "ocaml build failed:\n" + out2[-3000:]
         return exe, out + out2
